@@ -12,6 +12,10 @@ impl Repr {
             let num = IBig::from_str_radix(&src[..slash], radix)?;
             let den = IBig::from_str_radix(&src[slash + 1..], radix)?;
             let (sign, den) = den.into_parts();
+            if den.is_zero() {
+                // a zero denominator does not denote a rational number
+                return Err(ParseError::InvalidDigit);
+            }
             Ok(Repr {
                 numerator: num * sign,
                 denominator: den,
@@ -34,6 +38,10 @@ impl Repr {
 
             if num_radix != den_radix {
                 return Err(ParseError::InconsistentRadix);
+            }
+            if den.is_zero() {
+                // a zero denominator does not denote a rational number
+                return Err(ParseError::InvalidDigit);
             }
             Ok((
                 Repr {
